@@ -1443,10 +1443,17 @@ class Ref:
                 k = k.value if hasattr(k, "value") else k
                 target = pos[i] - k if op == "lag" else pos[i] + k
                 res = None
+                hits = []
                 for j in range(n):
                     v, ty = vals[j]
                     hit = z3.And(part[i][j], pos[j] == target)
+                    hits.append(hit)
                     res = (SV(v.kind, z3.Or(z3.Not(hit), v.null), v.val) if res is None else ite(hit, v, res))
+                if node.params and len(node.params) > 1 and node.params[1] is not None:
+                    # the default applies only when there is NO datapoint at the offset; a datapoint with a null value gives null
+                    d = node.params[1]
+                    d = d.value if hasattr(d, "value") else d
+                    res = ite(z3.Or(*hits), res, as_kind(lit(d), res.kind) if res.kind in ("int", "real") else lit(d))
                 out.append((res, vals[i][1]))
                 continue
             if op == "rank":
